@@ -574,6 +574,38 @@ func c06Stream(o *Out, rng *rand.Rand, n int) {
 		c06Announce(o, "plus-only", uri, c06Opts{MaxNW: 100, DefNW: 50, MaxIH: 50}, nil, "192.0.2.7:6881")
 		c06Scrape(o, "plus-only", "/scrape?info_hash="+ih+"&info_hash="+pid, 50)
 	}
+	// MANY unrelated parameters (distinct keys, far more than any client sends) before, after and between the parameters
+	// the tracker reads: the request is the same request wherever they stand and however many they are
+	for _, cnt := range []int{7, 31, 32, 33, 64, 129, 300} {
+		for pos := 0; pos < 3; pos++ {
+			g := c06Valid(rng)
+			c06SetKV(g, "numwant", "7")
+			c06SetKV(g, "compact", "1")
+			c06SetKV(g, "event", "completed")
+			var junk []c06KV
+			for j := 0; j < cnt; j++ {
+				junk = append(junk, c06KV{fmt.Sprintf("x%d_%s", j, c06Pick(rng, c06Unrelated)), c06Pick(rng, []string{"", "1", "v", "a+b"})})
+			}
+			switch pos {
+			case 0:
+				g.kvs = append(junk, g.kvs...)
+			case 1:
+				g.kvs = append(g.kvs, junk...)
+			default:
+				c06Shuffle(rng, g.kvs)
+				half := len(g.kvs) / 2
+				g.kvs = append(append(append([]c06KV{}, g.kvs[:half]...), junk...), g.kvs[half:]...)
+			}
+			g.opt = c06Opts{MaxNW: 100, DefNW: 50}
+			c06Announce(o, "many-unrelated", c06Render(rng, "/announce", g.kvs), g.opt, g.hdrs, g.remote)
+		}
+		// ... and for a scrape: info_hash values after many other keys
+		uri := "/scrape?"
+		for j := 0; j < cnt; j++ {
+			uri += fmt.Sprintf("k%d=v&", j)
+		}
+		c06Scrape(o, "many-unrelated-scrape", uri+"info_hash=aaaaaaaaaaaaaaaaaaaa&info_hash=bbbbbbbbbbbbbbbbbbbb", 50)
+	}
 	// fixed corner URIs
 	for _, u := range []string{"", "?", "/announce", "/announce?", "/announce??", "/announce?&&;;", "/announce?=", "/announce?=&=", "/announce?%", "/announce?a=%",
 		"/announce?a=%4", "/announce?a=%4g", "/announce?%zz=1", "/announce?a=%%41", "/announce?info_hash", "/announce?info_hash=", "/announce?info_hash=%41",
